@@ -1,7 +1,7 @@
 (* Tree/FilesProofsTop.v — C10 proofs: the statements of Properties/C10.v assembled from the layers below. *)
 From Coq Require Import PeanoNat Arith Lia.
 From AV Require Import Base.Bytes Base.Outcome Hash.HashModel Tree.Heap Tree.Ops Tree.Script Tree.Serialize
-  Tree.Inv Tree.InvProofsBase Tree.InvProofsCore Tree.InvProofsTree
+  Tree.Inv Tree.InvProofsBase Tree.InvProofsCore Tree.InvProofsTree Tree.InvProofs
   Tree.Files Tree.FilesProofsBase Tree.FilesProofsProj Tree.FilesProofsFrame Tree.FilesProofsOps
   Tree.FilesProofsAdd Tree.FilesProofsRemove Tree.FilesProofsInv Tree.FilesProofsHist.
 Open Scope string_scope.
@@ -64,3 +64,43 @@ Lemma self_contained (Loads : world -> option N -> id -> Prop) :
 Proof. intros H w x f Hx. apply H. intros i. apply proj_closed. Qed.
 
 End Top.
+
+(* ---------- C03's step theorems discharge the hypotheses of the history and refutation theorems ---------- *)
+Section Discharged.
+Variable T : tables.
+Variable tab_el tab_en : nametab.
+Variable check_fn : N -> list N -> res bool.
+Variable LATEST : N.
+Variable root_attrs : list (N * cdata).
+
+Lemma core_step_all : CoreStep T tab_el tab_en check_fn LATEST root_attrs.
+Proof. intros o w r w' C H. eapply (Core_step T tab_el tab_en check_fn LATEST root_attrs); eauto. Qed.
+Lemma tree_step_all : TreeStep T tab_el tab_en check_fn LATEST root_attrs.
+Proof. intros o w r w' TI HK H. eapply (TreeInv_step T tab_el tab_en check_fn LATEST root_attrs); eauto. Qed.
+
+Lemma inv_step_all o w r w' :
+  TreeInv w -> FilesInv T w -> Pending10 w o = false -> Known10 w o = false -> Unowned w o = false ->
+  run_op T tab_el tab_en check_fn LATEST root_attrs o w = Val (r, w') -> FilesInv T w'.
+Proof. apply inv_step. apply core_step_all. Qed.
+
+Lemma inv_histories_all l w w' : TreeInv w -> FilesInv T w ->
+  steps_ok T tab_el tab_en check_fn LATEST root_attrs l w = true ->
+  run_ops T tab_el tab_en check_fn LATEST root_attrs l w = Val w' -> TreeInv w' /\ FilesInv T w'.
+Proof. apply inv_histories; [apply core_step_all | apply tree_step_all]. Qed.
+
+(* every state reachable from the empty world by a history whose steps avoid the classes *)
+Lemma reachable_all l w' :
+  steps_ok T tab_el tab_en check_fn LATEST root_attrs l empty_world = true ->
+  run_ops T tab_el tab_en check_fn LATEST root_attrs l empty_world = Val w' -> TreeInv w' /\ FilesInv T w'.
+Proof. apply inv_histories_all; [apply empty_treeinv | apply empty_filesinv]. Qed.
+End Discharged.
+
+Import TinyF.
+Lemma add_foreign_refuted_all : refuted Known_add_foreign.
+Proof. apply add_foreign_refuted; [apply core_step_all | apply tree_step_all]. Qed.
+Lemma root_last_refuted_all : refuted Known_root_last.
+Proof. apply root_last_refuted; [apply core_step_all | apply tree_step_all]. Qed.
+Lemma root_last_remove_file_refuted_all : refuted (fun w o => Known_root_last w o && match o with OpRemoveFile _ _ => true | _ => false end).
+Proof. apply root_last_remove_file_refuted; [apply core_step_all | apply tree_step_all]. Qed.
+Lemma move_local_refuted_all : refuted Known_move_local.
+Proof. apply move_local_refuted; [apply core_step_all | apply tree_step_all]. Qed.
